@@ -573,6 +573,85 @@ def index_ops(ctx, db, aff, r, n_cases):
 
 
 # --------------------------------------------------------------------------------------- curves
+def unitless_sources(ctx):
+    """ChangingIndex on arrays that carry no unit at all (CreateEmptyArray, a ratio whose units cancel), in every container:
+    whatever the call answers - a new array or a refusal - the source still holds what it held, a second call from the same
+    source starts from the same values, and a result is a well-sized array that is not the source."""
+    import numpy as np
+    from barril.units import FixedArray, Scalar
+
+    base = [1.0, 2.0, 3.0]
+    sources = []
+    for kind in ("list", "tuple", "nd"):
+        mk = {"list": list, "tuple": tuple, "nd": lambda z: np.array(z, dtype=float)}[kind]
+        sources.append(("CreateEmptyArray(3, %s)" % kind, lambda mk=mk: FixedArray.CreateEmptyArray(3, mk(base)), base))
+        sources.append(("ratio of two %s arrays in m" % kind, lambda mk=mk: FixedArray(3, mk([2.0, 4.0, 6.0]), "m") / FixedArray(3, mk([2.0, 2.0, 2.0]), "m"), base))
+        sources.append(("product m * 1/m of %s arrays" % kind, lambda mk=mk: FixedArray(3, mk(base), "m") * FixedArray(3, mk([1.0, 1.0, 1.0]), "1/m"), base))
+    sources.append(("CreateEmptyArray(2)", lambda: FixedArray.CreateEmptyArray(2), [0.0, 0.0]))
+    amounts = [("Scalar in m", lambda: Scalar(5.0, "m")), ("(x, 'm')", lambda: (5.0, "m")), ("number", lambda: 5.0), ("unit-less Scalar", lambda: Scalar.CreateEmptyScalar(5.0)), ("Scalar in degC", lambda: Scalar(5.0, "degC")), ("(None, 'm')", lambda: (None, "m"))]
+    for sname, mk, want in sources:
+        try:
+            src = mk()
+        except Exception as e:
+            ctx.count("unit-less sources that could not be built")
+            continue
+        first = snapshot.value_object(src)
+        for aname, am in amounts:
+            for use in (True, False):
+                for i in (0, -1, 1):
+                    ctx.ev()
+                    ctx.nt(("unit-less source", sname, aname, use))
+                    case = {"source": sname, "amount": aname, "use_value_unit": use, "index": i}
+                    try:
+                        res = src.ChangingIndex(i, am(), use)
+                    except Exception:
+                        ctx.count("unit-less source: ChangingIndex refused")
+                        res = None
+                    if snapshot.value_object(src) != first:
+                        ctx.violation("ChangingIndex-changed-its-source:unit-less source", dict(case, before=repr(first)[:200], after=repr(snapshot.value_object(src))[:200]), replay={"unitless_sources": True})
+                        src = mk()
+                        first = snapshot.value_object(src)
+                        continue
+                    if res is None:
+                        continue
+                    ctx.count("unit-less source: ChangingIndex answered")
+                    if res is src:
+                        ctx.violation("ChangingIndex-returned-the-source", case, replay={"unitless_sources": True})
+                    p = sizes.check_fixedarray(res) if isinstance(res, FixedArray) else "result is %s" % type(res).__name__
+                    if p or res.dimension != len(want):
+                        ctx.violation("ChangingIndex-size:unit-less source", dict(case, problem=p or "dimension %r" % res.dimension), replay={"unitless_sources": True})
+                        continue
+                    # the items that were not addressed are the (unit-less) numbers they were
+                    rv = [float(t) for t in res.GetValues()]
+                    ii = i % len(want)
+                    if [t for j, t in enumerate(rv) if j != ii] != [float(t) for j, t in enumerate(want) if j != ii]:
+                        ctx.violation("ChangingIndex-other-element-changed:unit-less source", dict(case, observed=rv, source_values=want), replay={"unitless_sources": True})
+
+
+def both_names_for_the_values(ctx):
+    """The internal constructor knows the value container under two names (`values`, and `value` as the base class calls
+    it). Given both - equal or not in length - the call is refused, or what it builds is a well-sized FixedArray."""
+    from barril.units import FixedArray, ObtainQuantity
+
+    q = ObtainQuantity("m", "length")
+    for label, args, kw in (
+        ("3 and 1, inferred", ([1.0, 2.0, 3.0],), dict(value=[9.0])), ("3 and 1, dimension 3", ([1.0, 2.0, 3.0],), dict(dimension=3, value=[9.0])), ("3 and 0, dimension 3", ([1.0, 2.0, 3.0],), dict(dimension=3, value=[])),
+        ("2 and 5, inferred", ((1.0, 2.0),), dict(value=(1.0, 2.0, 3.0, 4.0, 5.0))), ("1 and 3, dimension 3", ([1.0],), dict(dimension=3, value=[1.0, 2.0, 3.0])), ("3 and 3", ([1.0, 2.0, 3.0],), dict(value=[4.0, 5.0, 6.0])),
+        ("keywords, 4 and 2", (), dict(values=[1.0, 2.0, 3.0, 4.0], value=[1.0, 2.0])), ("keywords, 2 and 4, dimension 2", (), dict(values=[1.0, 2.0], value=[1.0, 2.0, 3.0, 4.0], dimension=2)),
+    ):  # fmt: skip
+        ctx.ev()
+        ctx.nt(("both names", label))
+        try:
+            res = FixedArray.CreateWithQuantity(q, *args, **kw)
+        except Exception:
+            ctx.count("both names for the values: refused")
+            continue
+        ctx.count("both names for the values: accepted")
+        p = sizes.check_fixedarray(res)
+        if p:
+            ctx.violation("CreateWithQuantity(values=, value=)-size", {"given": label, "problem": p, "result": srepr(res)[:160]}, replay={"both_names": True})
+
+
 def curves(ctx, r, n_hist):
     from barril.curve.curve import Curve
     from barril.units import Array, FixedArray
@@ -716,6 +795,9 @@ def run(ctx):
             curves(ctx, ctx.rng("curves%d" % rep), 250 * scale)
             do_sweep(ctx, "curves")
         if ctx.shard == 0:
+            unitless_sources(ctx)
+            both_names_for_the_values(ctx)
+            do_sweep(ctx, "unit-less sources")
             ctx.sample({"route": "CreateWithQuantity(q,values=,dimension=)", "dimension": 3, "len": 2, "container": "nd", "expected": "ValueError, container untouched"})
             ctx.sample({"chain": ["+fixed", "bad:+array", "ChangingIndex", "pickle", "*nd1"], "expected": "dimension kept, refused attempt raises ValueError"})
             ctx.sample({"curve history": [["Curve", 2, 2], ["SetImage", 3], ["domain=", 2], ["SetDomain", 0]], "expected": "lengths always equal; refused calls leave image and domain identical"})
